@@ -1,0 +1,32 @@
+// Copyright Suneido Software Corp. All rights reserved.
+// Governed by the MIT license found in the LICENSE file.
+
+//go:build verif
+
+package db19
+
+import "github.com/apmckinlay/gsuneido/db19/meta"
+
+// accessors for external verification harnesses (build tag verif)
+
+// VerifSnapshotMeta returns the Meta of the state
+// the update transaction's snapshot was taken from
+func VerifSnapshotMeta(t *UpdateTran) *meta.Meta {
+	return t.ct.state.Meta
+}
+
+// VerifReadMeta returns the Meta a read transaction is using
+func VerifReadMeta(t *ReadTran) *meta.Meta {
+	return t.meta
+}
+
+// VerifStartEnd returns the checker sequence numbers of an update transaction.
+// It must only be called after the transaction has completed.
+func VerifStartEnd(t *UpdateTran) (start, end int) {
+	return t.ct.start, t.ct.end
+}
+
+// VerifFailure returns the failure reason of an update transaction ("" if none)
+func VerifFailure(t *UpdateTran) string {
+	return t.ct.failure.Load()
+}
